@@ -38,9 +38,13 @@ CONSTANTS NFrames,      \* values frames in the input
           AllowCancel,  \* the consumer may call Pull(true) at any time
           Emit          \* print an ORDER line for each complete behaviour
 
-Workers == 1..Threads
-Frames  == 1..NFrames
-Epoch(f) == 1 + Cardinality({e \in EosAfter : e < f})
+\* The parameters are kept in a variable so that ZngScannerTrace can replay
+\* recorded executions with different parameters in one TLC run; the design
+\* check initialises it from the constants and never changes it.
+VARIABLE par   \* [nframes, threads, qcap, eos, err]
+Workers == 1..par.threads
+Frames  == 1..par.nframes
+Epoch(f) == 1 + Cardinality({e \in par.eos : e < f})
 
 VARIABLES next,        \* next frame the parser will read
           pepoch,      \* parser's current local context (Decoder.local), as a stream number
@@ -55,9 +59,11 @@ VARIABLES next,        \* next frame the parser will read
           delivered,   \* frames whose batches Pull has returned, in order
           doneOrder    \* history: order in which workers completed frames
 
-vars == <<next, pepoch, parserExit, busy, handed, queue, res, cwait, cstate, cancelled, delivered, doneOrder>>
+vars == <<par, next, pepoch, parserExit, busy, handed, queue, res, cwait, cstate, cancelled, delivered, doneOrder>>
 
-Init ==
+Params == [nframes |-> NFrames, threads |-> Threads, qcap |-> QCap, eos |-> EosAfter, err |-> ErrFrame]
+Start(p) ==
+  /\ par = p
   /\ next = 1 /\ pepoch = 1 /\ parserExit = FALSE
   /\ busy = [w \in Workers |-> 0]
   /\ handed = [f \in Frames |-> 0]
@@ -65,6 +71,7 @@ Init ==
   /\ res = [f \in Frames |-> "none"]
   /\ cwait = -1 /\ cstate = "run" /\ cancelled = FALSE
   /\ delivered = <<>> /\ doneOrder = <<>>
+Init == Start(Params)
 
 \* ----------------------------------------------------------------- parser
 \* s.parser.read() returned values frame `next` (EOS markers before it have
@@ -72,31 +79,31 @@ Init ==
 \* w.resultCh`; `worker.workCh <- w` with local = s.parser.types.local.
 Dispatch(w) ==
   /\ ~parserExit /\ ~cancelled
-  /\ next <= NFrames
+  /\ next <= par.nframes
   /\ busy[w] = 0
-  /\ Len(queue) < QCap
+  /\ Len(queue) < par.qcap
   /\ pepoch' = Epoch(next)
   /\ queue' = Append(queue, next)
   /\ busy' = [busy EXCEPT ![w] = next]
   /\ handed' = [handed EXCEPT ![next] = Epoch(next)]
   /\ next' = next + 1
-  /\ UNCHANGED <<parserExit, res, cwait, cstate, cancelled, delivered, doneOrder>>
+  /\ UNCHANGED <<par, parserExit, res, cwait, cstate, cancelled, delivered, doneOrder>>
 
 \* io.EOF (or a framing error): sendControl queues the result, the goroutine
 \* returns and the deferred close(resultChCh) runs.
 ParserEOF ==
   /\ ~parserExit /\ ~cancelled
-  /\ next = NFrames + 1
-  /\ Len(queue) < QCap
+  /\ next = par.nframes + 1
+  /\ Len(queue) < par.qcap
   /\ queue' = Append(queue, 0)
   /\ parserExit' = TRUE
-  /\ UNCHANGED <<next, pepoch, busy, handed, res, cwait, cstate, cancelled, delivered, doneOrder>>
+  /\ UNCHANGED <<par, next, pepoch, busy, handed, res, cwait, cstate, cancelled, delivered, doneOrder>>
 
 \* Every blocking point of the parser also selects on ctx.Done().
 ParserCancelled ==
   /\ ~parserExit /\ cancelled
   /\ parserExit' = TRUE
-  /\ UNCHANGED <<next, pepoch, busy, handed, queue, res, cwait, cstate, cancelled, delivered, doneOrder>>
+  /\ UNCHANGED <<par, next, pepoch, busy, handed, queue, res, cwait, cstate, cancelled, delivered, doneOrder>>
 
 \* ---------------------------------------------------------------- workers
 \* scanBatch finished: `work.resultCh <- op.Result{...}; close(work.resultCh)`.
@@ -106,7 +113,7 @@ WorkerDone(w) ==
   /\ res' = [res EXCEPT ![busy[w]] = "full"]
   /\ doneOrder' = Append(doneOrder, busy[w])
   /\ busy' = [busy EXCEPT ![w] = 0]
-  /\ UNCHANGED <<next, pepoch, parserExit, handed, queue, cwait, cstate, cancelled, delivered>>
+  /\ UNCHANGED <<par, next, pepoch, parserExit, handed, queue, cwait, cstate, cancelled, delivered>>
 
 \* --------------------------------------------------------------- consumer
 \* Pull(false): `case ch := <-s.resultChCh`
@@ -115,7 +122,7 @@ TakeCh ==
   /\ queue # <<>>
   /\ cwait' = Head(queue)
   /\ queue' = Tail(queue)
-  /\ UNCHANGED <<next, pepoch, parserExit, busy, handed, res, cstate, cancelled, delivered, doneOrder>>
+  /\ UNCHANGED <<par, next, pepoch, parserExit, busy, handed, res, cstate, cancelled, delivered, doneOrder>>
 
 \* `result, ok := <-ch`: a batch, or the end of input / an error, on which
 \* Pull records eof and cancels the context.
@@ -126,29 +133,29 @@ RecvRes ==
         /\ Finish /\ UNCHANGED <<res, delivered>>
      \/ /\ cwait > 0 /\ res[cwait] = "full"
         /\ res' = [res EXCEPT ![cwait] = "taken"]
-        /\ IF cwait = ErrFrame
+        /\ IF cwait = par.err
            THEN Finish /\ UNCHANGED delivered
            ELSE delivered' = Append(delivered, cwait) /\ UNCHANGED <<cstate, cancelled>>
   /\ cwait' = -1
-  /\ UNCHANGED <<next, pepoch, parserExit, busy, handed, queue, doneOrder>>
+  /\ UNCHANGED <<par, next, pepoch, parserExit, busy, handed, queue, doneOrder>>
 
 \* Pull(true): cancel, then `for range s.resultChCh {}` until it is closed.
 CancelPull ==
   /\ AllowCancel
   /\ cstate = "run" /\ cwait = -1
   /\ cstate' = "cancel" /\ cancelled' = TRUE
-  /\ UNCHANGED <<next, pepoch, parserExit, busy, handed, queue, res, cwait, delivered, doneOrder>>
+  /\ UNCHANGED <<par, next, pepoch, parserExit, busy, handed, queue, res, cwait, delivered, doneOrder>>
 DrainOne ==
   /\ cstate = "cancel" /\ queue # <<>>
   /\ queue' = Tail(queue)
-  /\ UNCHANGED <<next, pepoch, parserExit, busy, handed, res, cwait, cstate, cancelled, delivered, doneOrder>>
+  /\ UNCHANGED <<par, next, pepoch, parserExit, busy, handed, res, cwait, cstate, cancelled, delivered, doneOrder>>
 DrainEnd ==
   /\ cstate = "cancel" /\ queue = <<>> /\ parserExit
   /\ cstate' = "closed"
-  /\ UNCHANGED <<next, pepoch, parserExit, busy, handed, queue, res, cwait, cancelled, delivered, doneOrder>>
+  /\ UNCHANGED <<par, next, pepoch, parserExit, busy, handed, queue, res, cwait, cancelled, delivered, doneOrder>>
 
 Quiescent == cstate \in {"done", "closed"} /\ parserExit /\ \A w \in Workers : busy[w] = 0
-OrderLine == PrintT(<<"ORDER", ToJson([threads |-> Threads, frames |-> NFrames, order |-> doneOrder])>>)
+OrderLine == PrintT(<<"ORDER", ToJson([threads |-> par.threads, frames |-> par.nframes, eos |-> par.eos, order |-> doneOrder])>>)
 Terminated == Quiescent /\ UNCHANGED vars
 
 Next ==
@@ -166,17 +173,17 @@ InOrder == \A i \in 1..Len(delivered) : delivered[i] = i
 \* At the end of input everything was delivered (up to the failing frame).
 Complete ==
   cstate = "done" =>
-     Len(delivered) = IF ErrFrame = 0 THEN NFrames ELSE ErrFrame - 1
+     Len(delivered) = IF par.err = 0 THEN par.nframes ELSE par.err - 1
 \* A worker decodes with the local context of its frame's stream, not with
 \* whatever the parser has moved on to.
 HandedOK == \A f \in Frames : handed[f] # 0 => handed[f] = Epoch(f)
 Bounds ==
-  /\ Len(queue) <= QCap
-  /\ Cardinality({w \in Workers : busy[w] # 0}) <= Threads
+  /\ Len(queue) <= par.qcap
+  /\ Cardinality({w \in Workers : busy[w] # 0}) <= par.threads
   /\ \A f \in Frames : res[f] # "none" => handed[f] # 0
 \* "Close guarantees that the underlying io.Reader is not read after it
 \* returns": Pull(true) returns only after the parser goroutine has exited.
 ClosedMeansParserGone == cstate = "closed" => parserExit
 \* For the export: print the completion order of each finished behaviour.
-EmitInv == (Emit /\ Quiescent /\ cstate = "done" /\ ErrFrame = 0) => OrderLine
+EmitInv == (Emit /\ Quiescent /\ cstate = "done" /\ par.err = 0) => OrderLine
 =============================================================================
